@@ -21,7 +21,7 @@ NSCHED = {'quick': 320, 'thorough': 3840}
 KEYS = ['a', 'b', 'k1', 7, 'p-q']
 VALS = [1, 'v', (2, 3), None, 2.5]
 SCEN = ['ww', 'ww', 'wr-other', 'wr-other', 'wr-list', 'wr-list', 'wr-list', 'over-r', 'over-list', 'del-r', 'del-list', 'www', 'f-wr', 'f-wo', 'f-wo', 'f-wr',
-        'q-ww', 'q-over-r', 'q-wr-list', 'q-upd-r', 'q-hold', 'wr-list-fine', 'wr-list-fine']
+        'q-ww', 'q-over-r', 'q-wr-list', 'q-upd-r', 'q-hold', 'wr-list-fine', 'wr-list-fine', 'over-len']
 
 
 def gen(tier, idx):
@@ -42,6 +42,9 @@ def gen(tier, idx):
     elif sc == 'wr-other': procs = [('writer', ['setitem', absent[0], nv()]), ('reader', [r.choice(['getitem', 'contains', 'get']), present[0]])]
     elif sc in ('wr-list', 'wr-list-fine'): procs = [('writer', ['setitem', absent[0], nv()]), ('reader', listing())]
     elif sc == 'over-r': k = present[0]; procs = [('writer', ['setitem', k, nv(dict(prior)[k])]), ('reader', [r.choice(['getitem', 'contains', 'get']), k])]
+    elif sc == 'over-len':
+        # an overwrite (or a delete) of an existing key while another process asks for len(): one answer, at every position of the writer's run
+        k = present[0]; procs = [('writer', r.choice([['setitem', k, nv(dict(prior)[k])], ['setitem', k, nv(dict(prior)[k])], ['delitem', k]])), ('reader', ['len'])]
     elif sc == 'over-list': k = present[0]; procs = [('writer', ['setitem', k, nv(dict(prior)[k])]), ('reader', listing())]
     elif sc == 'del-r': k = present[0]; procs = [('writer', [r.choice(['delitem', 'pop']), k]), ('reader', [r.choice(['getitem', 'contains', 'get']), k])]
     elif sc == 'del-list': k = present[0]; procs = [('writer', [r.choice(['delitem', 'pop']), k]), ('reader', listing())]
@@ -60,7 +63,7 @@ def gen(tier, idx):
     if sc == 'f-wr' and procs[1][1][0] in ('asdict', 'len'): procs[1] = ('reader', [procs[1][1][0]])
     policy = r.choice(['random', 'random', 'random', 'first', 'second', 'alternate', 'after-rename', 'after-rename'])
     if sc == 'q-hold': policy = 'hold'
-    if sc in ('f-wr', 'wr-other', 'over-r', 'del-r', 'q-over-r', 'q-upd-r'):
+    if sc in ('f-wr', 'wr-other', 'over-r', 'del-r', 'q-over-r', 'q-upd-r', 'over-len'):
         # the reader takes one step: put it at every position of the writer's run in turn (exhaustive for these scenarios)
         policy = 'pos:%d' % ((idx // len(SCEN)) % 16)
     # every 8th dir schedule gates the readers at system-call level (scandir / stat / lstat / open) instead of helper level:
@@ -71,22 +74,38 @@ def gen(tier, idx):
         # readers gated at system-call level; the writer is advanced j steps after the reader's k-th call, then the reader finishes:
         # enumerates where the writer's staging directory / rename falls between the reader's own directory scans and stats
         fine = True
-        n = (idx // len(SCEN)) * 2 + (1 if idx % len(SCEN) == len(SCEN) - 1 else 0)
+        n = (idx // len(SCEN)) * 2 + (1 if idx % len(SCEN) == 22 else 0)
         policy = 'wpos:%d:%d' % (1 + n % 10, [2, 3, 6, 9][(n // 10) % 4])
-    return dict(cfg=cfg, scen=sc, prior=prior, procs=procs, policy=policy, seed=r.randrange(10 ** 9), fine=fine)
+    # every third schedule runs its processes as forked children of one parent that has imported klepto (a process pool), the others as
+    # separately started interpreters
+    return dict(cfg=cfg, scen=sc, prior=prior, procs=procs, policy=policy, seed=r.randrange(10 ** 9), fine=fine, forked=(idx // len(SCEN)) % 3 == 1)
 
 
 class Child:
-    def __init__(self, job, tmp, tag):
+    def __init__(self, job, tmp, tag, spawn=True):
         c2p_r, c2p_w = os.pipe(); p2c_r, p2c_w = os.pipe()
         job = dict(job, ctl_w=c2p_w, ctl_r=p2c_r)
         p = os.path.join(tmp, 'job_%s.json' % tag); json.dump(job, open(p, 'w'))
-        env = dict(os.environ, PYTHONPATH=REPO + os.pathsep + HERE, PYTHONDONTWRITEBYTECODE='1')
-        self.proc = subprocess.Popen([sys.executable, os.path.join(HERE, 'sched_child.py'), p], env=env, cwd=tmp, pass_fds=(c2p_w, p2c_r),
-                                     stdout=subprocess.PIPE, stderr=subprocess.STDOUT)
-        os.close(c2p_w); os.close(p2c_r)
+        self.jobfile, self.child_fds = p, (c2p_w, p2c_r)
         self.r, self.w = c2p_r, p2c_w
-        self.buf = b''; self.done = None; self.pending = None
+        self.buf = b''; self.done = None; self.pending = None; self.proc = None
+        if spawn: self.spawn(tmp)
+    def spawn(self, tmp):
+        env = dict(os.environ, PYTHONPATH=REPO + os.pathsep + HERE, PYTHONDONTWRITEBYTECODE='1')
+        self.proc = subprocess.Popen([sys.executable, os.path.join(HERE, 'sched_child.py'), self.jobfile], env=env, cwd=tmp, pass_fds=self.child_fds,
+                                     stdout=subprocess.PIPE, stderr=subprocess.STDOUT)
+        for fd in self.child_fds: os.close(fd)
+    @staticmethod
+    def spawn_forked(kids, tmp):
+        """the processes are FORKED from one parent that has already imported klepto (a multiprocessing pool with the fork start method)"""
+        gp = os.path.join(tmp, 'job_group.json'); json.dump([k.jobfile for k in kids], open(gp, 'w'))
+        env = dict(os.environ, PYTHONPATH=REPO + os.pathsep + HERE, PYTHONDONTWRITEBYTECODE='1')
+        fds = tuple(fd for k in kids for fd in k.child_fds)
+        proc = subprocess.Popen([sys.executable, os.path.join(HERE, 'sched_child.py'), '--group', gp], env=env, cwd=tmp, pass_fds=fds,
+                                stdout=subprocess.PIPE, stderr=subprocess.STDOUT, start_new_session=True)
+        proc._group = True
+        for fd in fds: os.close(fd)
+        for k in kids: k.proc = proc
     def next_msg(self, timeout=60):
         while b'\n' not in self.buf:
             rl, _, _ = select.select([self.r], [], [], timeout)
@@ -102,7 +121,9 @@ class Child:
         for fd in (self.r, self.w):
             try: os.close(fd)
             except OSError: pass
-        try: self.proc.kill()
+        try:
+            if getattr(self.proc, '_group', False): os.killpg(self.proc.pid, 9)      # the parent and its forked workers
+            else: self.proc.kill()
         except Exception: pass
         self.proc.wait()
 
@@ -116,8 +137,10 @@ def run_schedule(case):
         job0 = dict(role='run', cfg=cfg, loc=loc, root=tmp, prior=pickle.dumps(prior).hex(), op=pickle.dumps(None).hex(), nogate=True)
         rc, _, _, tail = RF.child(job0, tmp, 'setup')
         if rc != 0: return dict(case=case, err='setup failed: ' + tail)
+        forked = bool(case.get('forked'))
         for i, (role, op) in enumerate(procs):
-            kids.append(Child(dict(role=role, cfg=cfg, loc=loc, root=tmp, op=pickle.dumps(op).hex(), fine=case.get('fine', False)), tmp, 'p%d' % i))
+            kids.append(Child(dict(role=role, cfg=cfg, loc=loc, root=tmp, op=pickle.dumps(op).hex(), fine=case.get('fine', False)), tmp, 'p%d' % i, spawn=not forked))
+        if forked: Child.spawn_forked(kids, tmp)
         for k in kids:
             m = k.next_msg()
             if 'ready' not in m: return dict(case=case, err='child not ready: %r' % m)
@@ -232,7 +255,7 @@ def monitor(tr):
             if res['bool'] is True and not stored[k]: bad('reader', 'phantom', '%s in archive is True although it was never stored' % k)
         elif 'nat' in res:
             lo = len([k for k in old if k not in touched or (k in new and k not in removed)]); hi = len(set(old) | set(new))
-            if not (lo <= res['nat'] <= hi): bad('reader', 'len', 'len() = %d, outside [%d, %d]' % (res['nat'], lo, hi))
+            if not (lo <= res['nat'] <= hi): bad('reader', 'len-below' if res['nat'] < lo else 'len-above', 'len() = %d, outside [%d, %d]' % (res['nat'], lo, hi))
         elif 'keys' in res:
             for k in res['keys']:
                 if not stored[k]: bad('reader', 'phantom', 'keys() lists %s, never stored' % k); break
